@@ -172,7 +172,13 @@ Mutants(g) ==
     \cup (IF HasMembers(g) THEN Permuted(g) \cup Deleted(g) \cup Inserted(g) ELSE {})
     \cup Rotated(g) \cup Reversed(g) \cup Retyped(g) \cup Positional(g) \cup InsertedEmpty(g)
     \cup (IF HasMembers(g) THEN {MapV(x, JigF(1)) : x \in Permuted(g)} ELSE {}) \cup {MapV(x, JigF(1)) : x \in Rotated(g)}
-Pairs == UNION {{<<g, h>> : h \in Mutants(g)} : g \in Bases}
+(* duplicate members: {a, a, b} against {a, b, b} and {a, b, c} - the matching has to be one to one *)
+DupOf(t, a, b, c) == {<<G(t, <<a, a, b>>), G(t, <<a, b, b>>)>>, <<G(t, <<a, a, b>>), G(t, <<a, b, c>>)>>, <<G(t, <<a, a, b>>), G(t, <<b, a, a>>)>>,
+                      <<G(t, <<a, a, b>>), G(t, <<b, a, b>>)>>}
+DupPairs == DupOf("MultiLineString", L1, L2, L3) \cup DupOf("Polygon", Box(0, 0, 600), Box(100, 100, 100), TriC(300, 300, 100))
+            \cup DupOf("MultiPolygon", P1, P2, P3)
+            \cup DupOf("GeometryCollection", G("Point", <<50, 60>>), G("LineString", L2), G("Polygon", P2))
+Pairs == UNION {{<<g, h>> : h \in Mutants(g)} : g \in Bases} \cup DupPairs
          \cup UNION {{<<x, y>> : x \in InsertedEmpty(g), y \in InsertedEmpty(g)} : g \in Bases}      \* empty members on both sides
 
 VARIABLE pr
